@@ -20,17 +20,20 @@ def run(tier, wd):
     else:
         plans = [("std", g.family(g.STD_PROG, 300, seed, depth=3), ["x", "-", "--", "-a", "-b", "-ab", "-o", "-ov", "-o=v", "--out", "-eu", "-z"], [[], ["-e"], ["-a", "-o"]], 3),
                  ("long", g.family(g.STD_PROG, 60, seed + 1, depth=4), ["x", "--", "-ab", "-ov", "-o", "-e"], [[], ["-e"]], 5)]
+    a2 = ["x", "--", "--verbose", "-q", "-qs", "-sv", "--src=v", "--source", "-s", "--verbose=true"]
+    plans.append(("prog2", g.family(g.PROG2, 6 if tier == "quick" else 80, seed + 2), a2[:8] if tier == "quick" else a2, [[], ["-s"]], 3))
     cnt = collections.Counter()
     nontrivial = set()
     for label, specs, alphabet, envsets, maxlen in plans:
-        triples = rc.enumerate_and_run(rep, wd, binpath, specs, alphabet, envsets, maxlen, label)
+        progs = [g.PROG2] if label == "prog2" else [g.STD_PROG]
+        triples = rc.enumerate_and_run(rep, wd, binpath, specs, alphabet, envsets, maxlen, label, progs=progs)
         for c, r, cls in triples:
             key = cls if not cls.startswith("violation") else cls.split(" ")[0]
             cnt[key] += 1
             if cls.startswith("known:"):
                 rep.known(cls[6:], rc.describe(specs, c))
             elif is_violation(cls):
-                rep.violation(rc.describe(specs, c) + " -> " + cls, rc.replay_obj(specs, c, r, cls))
+                rep.violation(rc.describe(specs, c) + " -> " + cls, rc.replay_obj(specs, c, r, cls, progs[0]))
             if c["acc"] or not any(t in ("-z", "--zz") for t in c["argv"]):
                 nontrivial.add((specs[c["si"]]["str"], tuple(c["env"]), tuple(c["argv"])))
             if c["acc"] and len(rep.cov["samples"]) < 6 and len(c["argv"]) >= 2:
@@ -93,7 +96,8 @@ def run(tier, wd):
                        "TLC explores the product of the subset constructions of the real compiled automaton and of the AST's automaton (equal acceptance in every "
                        "reachable pair = equal languages for inputs of any length). Harvest: every (spec, declarations, own tokens, verdict) record "
                        "of the repository's own test-suite run with the hooks on is validated by TLC against RefSemantics")
-    rep.assumptions += ["standard program: flags -a/--aa, -b; valued -o/--out, -e; arguments X, Y; all declared with a recording value type",
+    rep.assumptions += ["standard program: flags -a/--aa, -b; valued -o/--out, -e; arguments X, Y; second program: --verbose, -s/--src/--source (valued), -q; SRC1, DST_2; "
+                        "all declared with a recording value type",
                         "unclaimed cases (DESIGN 3.6) produce no verdict"]
     return rep.finish()
 
